@@ -79,7 +79,10 @@ def st4_band_integrated_saturation(
                     - radian_direction[direction_index]
                     + np.pi
                 ) % (2 * np.pi) - np.pi
-                if np.abs(mutual_angle) > integration_width_radians:
+                # A bin that lies exactly on the edge of the integration window
+                # must be treated the same way wherever it sits on the grid:
+                # do not let round-off in the mutual angle decide.
+                if np.abs(mutual_angle) > integration_width_radians + 1.0e-10:
                     continue
 
                 integrant += (
